@@ -189,6 +189,45 @@ func run[E any, P fields.Ptr[E]](c *mon.Ctx, f *fields.Field[E, P]) {
 			rec(c, id("ScalarMul"), func() []byte { s := sc; f.VecScalarMul(res, a, &s); return rawBytes(res) })
 			rec(c, id("Sum"), func() []byte { s := f.VecSum(a); return one(&s) })
 			rec(c, id("InnerProduct"), func() []byte { s := f.VecInnerProduct(a, b); return one(&s) })
+			// accumulator boundary shapes: values cancelling pairwise (sum = 0 mod q with an integer sum that is a
+			// multiple of q), all zero, sum = q-1 and sum = 1
+			if off == 0 && n >= 2 {
+				sh := fenced(&regs, make([]E, n), atEnd)
+				sb := fenced(&regs, make([]E, n), atEnd)
+				for shape := 0; shape < 4; shape++ {
+					for i := 0; i+1 < n; i += 2 {
+						sh[i] = srcA[i]
+						P(&sh[i+1]).Neg(&srcA[i])
+						sb[i], sb[i+1] = srcB[i], srcB[i]
+					}
+					var zero, unit, minus E
+					unit = f.One()
+					P(&minus).Neg(&unit)
+					if n%2 == 1 {
+						sh[n-1], sb[n-1] = zero, zero
+					}
+					switch shape {
+					case 1: // all zero
+						for i := range sh {
+							sh[i], sb[i] = zero, zero
+						}
+					case 2: // sum = q-1
+						sh[n-1] = minus
+						sb[n-1] = unit
+						if n%2 == 0 {
+							sh[n-2], sb[n-2] = zero, zero
+						}
+					case 3: // sum = 1
+						sh[n-1] = unit
+						sb[n-1] = unit
+						if n%2 == 0 {
+							sh[n-2], sb[n-2] = zero, zero
+						}
+					}
+					rec(c, fmt.Sprintf("%s/Vector.Sum/shape%d/n%d", N, shape, n), func() []byte { s := f.VecSum(sh); return one(&s) })
+					rec(c, fmt.Sprintf("%s/Vector.InnerProduct/shape%d/n%d", N, shape, n), func() []byte { s := f.VecInnerProduct(sh, sb); return one(&s) })
+				}
+			}
 			// inputs must be untouched (also a cross-config observable)
 			rec(c, id("inputs-after"), func() []byte { return append(rawBytes(a), rawBytes(b)...) })
 			for _, r := range regs {
